@@ -40,15 +40,20 @@ def init_worker(mem_gb=4):
     # soft limit only, so that child processes (the JVM in replay mode) can lift it again
     resource.setrlimit(resource.RLIMIT_AS, (lim if hard == resource.RLIM_INFINITY else min(lim, hard), hard))
     signal.signal(signal.SIGALRM, _alarm)
+    signal.signal(signal.SIGPROF, _alarm)
     sys.setrecursionlimit(10000)
 
 
 @contextlib.contextmanager
 def guard(seconds):
-    signal.alarm(seconds)
+    """Bound a call into the real code by CPU time of this worker process (ITIMER_PROF), so that a busy machine cannot turn a fast call
+    into a 'does not terminate' observation; a wall-clock alarm 20 times as long is the backstop for a call that blocks without computing."""
+    signal.setitimer(signal.ITIMER_PROF, seconds)
+    signal.alarm(int(seconds * 20))
     try:
         yield
     finally:
+        signal.setitimer(signal.ITIMER_PROF, 0)
         signal.alarm(0)
 
 
